@@ -162,6 +162,12 @@ def make_cases(ctx, first):
         else:
             # store-wide pass over healthy, emptied, corrupt and never-created repositories (directory store)
             target = "a"
+            if rng.random() < 0.6:
+                # content addressed with the other digest algorithms (left without a manifest: a collection removes it)
+                for alg in rng.sample(["sha512", "sha384", "sha512"], rng.randrange(1, 3)):
+                    data = b"other-alg-%s-%d" % (alg.encode(), i)
+                    w.contents.add(data)
+                    w.add(upload_post(target, digest=dg(alg, data), body=data))
             for t in sorted(w.g[target].tags):
                 w.add(manifest_delete(target, t))
             w.g[target].tags.clear()
